@@ -93,6 +93,78 @@ fn headers() -> Vec<(&'static str, Vec<u8>)> {
     ]
 }
 
+fn resident_bytes() -> u64 {
+    std::fs::read_to_string("/proc/self/statm").ok().and_then(|t| t.split_whitespace().nth(1).and_then(|p| p.parse::<u64>().ok())).map(|pages| pages * 4096).unwrap_or(0)
+}
+
+/// What a client sends after the router is done with it (a refused frame, a finished status
+/// exchange) is nobody's to keep: a client that pours 48 MiB behind the end of its connection
+/// leaves the process as large as it was. (Router and harness share the process; the client
+/// writes from one fixed 64 KiB buffer with blocking writes, so nothing of the flood is held on
+/// the sending side. Run last and alone.)
+pub async fn bytes_after_the_end_family(report: &mut Report) {
+    for (name, opening) in [
+        ("after-a-refused-frame", vec![0x00u8]),
+        ("after-a-finished-status-exchange", {
+            let mut b = scripts::handshake(1, "end.example.org", 25565, 770).frame();
+            b.extend_from_slice(&vp_common::refcodec::Pkt::StatusRequest.frame());
+            b.extend_from_slice(&vp_common::refcodec::Pkt::StatusPing { payload: 7 }.frame());
+            b
+        }),
+    ] {
+        let direct = start_direct(DirectSpec { timeout: Duration::from_secs(20), ..Default::default() }).await;
+        let addr = direct.addr;
+        tokio::time::sleep(Duration::from_millis(200)).await;
+        let before = resident_bytes();
+        let peak = std::sync::Arc::new(std::sync::atomic::AtomicU64::new(before));
+        let sampler = {
+            let peak = peak.clone();
+            tokio::spawn(async move {
+                loop {
+                    peak.fetch_max(resident_bytes(), std::sync::atomic::Ordering::Relaxed);
+                    tokio::time::sleep(Duration::from_millis(20)).await;
+                }
+            })
+        };
+        let sent = tokio::task::spawn_blocking(move || {
+            use std::io::Write;
+            let Ok(mut s) = std::net::TcpStream::connect(addr) else { return 0usize };
+            let _ = s.set_write_timeout(Some(Duration::from_secs(2)));
+            if s.write_all(&opening).is_err() {
+                return 0;
+            }
+            std::thread::sleep(Duration::from_millis(150));
+            let chunk = [0x41u8; 64 * 1024];
+            let mut sent = 0usize;
+            for _ in 0..768 {
+                if s.write_all(&chunk).is_err() {
+                    break;
+                }
+                sent += chunk.len();
+            }
+            // keep the connection for a moment: what was taken is still held if anything holds it
+            std::thread::sleep(Duration::from_millis(300));
+            sent
+        })
+        .await
+        .unwrap_or(0);
+        sampler.abort();
+        let grown = peak.load(std::sync::atomic::Ordering::Relaxed).saturating_sub(before);
+        direct.stop.cancel();
+        report.eval(Some(&format!("bytes-after-the-end/{name}")));
+        report.count("connections that kept sending after the router was done with them", 1);
+        let detail = json!({"case": name, "bytes_the_socket_took": sent, "resident_before": before, "resident_growth_at_peak": grown});
+        report.sample(json!({"case": format!("48 MiB sent {name}"), "observed": detail}));
+        if grown > 24 * 1024 * 1024 {
+            report.violation(
+                &format!("allocation/bytes-kept-after-the-end/{name}"),
+                &format!("the process grew by {} MiB while a client sent {} MiB {name} (maximum frame 10 000 bytes)", grown >> 20, sent >> 20),
+                detail,
+            );
+        }
+    }
+}
+
 pub async fn run(_cli: &Cli, report: &mut Report) {
     for (v1, v2ok) in [(true, true), (true, false), (false, true)] {
         let direct = start_direct(DirectSpec { timeout: Duration::from_secs(3), proxy: Some((v1, v2ok)), ..Default::default() }).await;
